@@ -37,6 +37,9 @@ fn compare_values_for_range(a: &Value, b: &Value) -> Option<CmpOrdering> {
         (Value::Float64(a), Value::Float64(b)) => a.partial_cmp(b),
         (Value::String(a), Value::String(b)) => Some(a.cmp(b)),
         (Value::Bool(a), Value::Bool(b)) => Some(a.cmp(b)),
+        // Int64 and Float64 compare by value, as the generic filter does
+        (Value::Int64(a), Value::Float64(b)) => (*a as f64).partial_cmp(b),
+        (Value::Float64(a), Value::Int64(b)) => a.partial_cmp(&(*b as f64)),
         _ => None,
     }
 }
